@@ -76,7 +76,7 @@ _BlockItems = list[_BlockItem]
 _ItemsBlock = tuple[_BlockItems, int]
 
 _RE_ADMONITION: Pattern = re.compile(r"^(?P<type>[\w][\s\w-]*):(\s+(?P<title>[^\s].*))?\s*$", re.IGNORECASE)
-_RE_NAME_ANNOTATION_DESCRIPTION: Pattern = re.compile(r"^(?:(?P<name>\w+)?\s*(?:\((?P<type>.+)\))?:\s*)?(?P<desc>.*)$")
+_RE_NAME_ANNOTATION_DESCRIPTION: Pattern = re.compile(r"^(?:(?P<name>\w+)?\s*(?:\((?P<type>.+?)\))?:\s*)?(?P<desc>.*)$")
 _RE_DOCTEST_BLANKLINE: Pattern = re.compile(r"^\s*<BLANKLINE>\s*$")
 _RE_DOCTEST_FLAGS: Pattern = re.compile(r"(\s*#\s*doctest:.+)$")
 
@@ -295,6 +295,20 @@ def _read_attributes_section(
     return DocstringSectionAttributes(attributes), new_offset
 
 
+def _split_signature_description(line: str) -> tuple[str, str]:
+    # Split at the first colon that is not inside the brackets of the signature:
+    # `f(a: int, b=2): Description.` -> `f(a: int, b=2)` and ` Description.`.
+    depth = 0
+    for index, char in enumerate(line):
+        if char in "([{":
+            depth += 1
+        elif char in ")]}":
+            depth -= 1
+        elif char == ":" and depth <= 0:
+            return line[:index], line[index + 1 :]
+    raise ValueError(line)
+
+
 def _read_functions_section(
     docstring: Docstring,
     *,
@@ -307,7 +321,7 @@ def _read_functions_section(
     signature: str | Expr | None = None
     for line_number, func_lines in block:
         try:
-            name_with_signature, description = func_lines[0].split(":", 1)
+            name_with_signature, description = _split_signature_description(func_lines[0])
         except ValueError:
             docstring_warning(
                 docstring,
@@ -342,7 +356,7 @@ def _read_classes_section(
     signature: str | Expr | None = None
     for line_number, class_lines in block:
         try:
-            name_with_signature, description = class_lines[0].split(":", 1)
+            name_with_signature, description = _split_signature_description(class_lines[0])
         except ValueError:
             docstring_warning(
                 docstring,
